@@ -153,7 +153,22 @@ func ruleCoreCount(p *core.Program) []core.Obligation {
 					case *ssa.Store:
 						bad = "stored at " + p.Pos(x.Pos())
 					case *ssa.Return:
-						bad = "returned at " + p.Pos(x.Pos())
+						// a helper that returns the shard count: the value is followed to its call sites
+						helper := x.Parent()
+						sites := 0
+						if helper.Parent() == nil && len(core.RetResults(x)) == 1 {
+							for _, caller := range p.Funcs {
+								core.EachInstr(caller, func(_ *ssa.BasicBlock, _ int, ci ssa.Instruction) {
+									if c, ok := ci.(*ssa.Call); ok && c.Call.StaticCallee() == helper {
+										sites++
+										walk(c)
+									}
+								})
+							}
+						}
+						if sites == 0 {
+							bad = "returned at " + p.Pos(x.Pos())
+						}
 					default:
 						bad = fmt.Sprintf("used by %T at %s", r, p.Pos(r.Pos()))
 					}
